@@ -22,7 +22,7 @@ use std::sync::Arc;
 pub const COUNTERS: &[&str] = &[
     "texts_tried", "texts_accepted", "texts_field_product", "texts_edit_ball", "texts_short", "texts_non_ascii",
     "builder_states_tried", "builder_states_accepted", "builder_states_reference_valid", "builder_states_accepted_but_not_valid_tolerated",
-    "crowded_boards_tried", "crowded_boards_accepted", "crowded_max_men_of_mover_accepted", "accepted_boards_exercised", "moves_applied_on_accepted_boards", "universe_positions_accepted",
+    "crowded_boards_tried", "crowded_boards_accepted", "crowded_max_men_of_a_colour_accepted", "accepted_boards_exercised", "moves_applied_on_accepted_boards", "universe_positions_accepted",
 ];
 
 fn case_text(s: &str) -> Value {
@@ -101,11 +101,18 @@ fn exercise(b: &Board) -> u64 {
     let _ = b.to_string();
     let _ = b.null_move();
     let _ = b.get_hash();
+    // on crowded boards the reply's move generation runs as well: the move list of the side NOT to
+    // move is filled only one ply later
+    let crowded = b.color_combined(chess::Color::White).popcnt() > 14 || b.color_combined(chess::Color::Black).popcnt() > 14;
     for m in ms {
         let nb = b.make_move_new(m);
         let mut out = Board::default();
         b.make_move(m, &mut out);
         let _ = nb.to_string();
+        if crowded {
+            let _ = MoveGen::new_legal(&nb).count();
+            let _ = nb.status();
+        }
         n += 1;
     }
     n
@@ -576,22 +583,24 @@ fn crowded(run: &Run, tier: Tier) {
                 bb.piece(lsq(own_k), lkind(Kind::K), lcol(me));
                 p.put(ek, Kind::K, me.flip());
                 bb.piece(lsq(ek), lkind(Kind::K), lcol(me.flip()));
-                p.stm = me;
-                bb.side_to_move(lcol(me));
-                guard::crumb_text(&format!("crowded board {}", p.fen()));
-                run.add("crowded_boards_tried", 1);
-                let before = run.get("builder_states_accepted");
-                if !judge_builder(run, &bb, &p, "crowded board") {
-                    return;
-                }
-                if run.get("builder_states_accepted") > before {
-                    run.add("crowded_boards_accepted", 1);
-                    max_men.fetch_max(p.count(me) as u64, Ordering::Relaxed);
+                for stm in [me, me.flip()] {
+                    p.stm = stm;
+                    bb.side_to_move(lcol(stm));
+                    guard::crumb_text(&format!("crowded board {}", p.fen()));
+                    run.add("crowded_boards_tried", 1);
+                    let before = run.get("builder_states_accepted");
+                    if !judge_builder(run, &bb, &p, "crowded board") {
+                        return;
+                    }
+                    if run.get("builder_states_accepted") > before {
+                        run.add("crowded_boards_accepted", 1);
+                        max_men.fetch_max(p.count(me) as u64, Ordering::Relaxed);
+                    }
                 }
             }
         }
     });
-    run.add("crowded_max_men_of_mover_accepted", max_men.load(Ordering::Relaxed));
+    run.add("crowded_max_men_of_a_colour_accepted", max_men.load(Ordering::Relaxed));
     // legal chess with more than the normal material (promoted men)
     for f in [
         "QQQQQQQQ/8/8/8/8/8/k7/4K2R w K - 0 1",
@@ -636,7 +645,7 @@ impl PosOracle for C07Universe {
     }
 }
 
-pub const RULE: &str = "text: (i) the complete product placement(~200: valid ones, ranks not summing to 8, digit runs that wrap the file counter, 7 and 9 ranks, empty, stray letters, multi-byte characters) x side(7) x castling(14) x en passant(27) x tail(4); (ii) the complete 1-edit ball (insert / delete / substitute at every index, 48-symbol alphabet incl. tab, LF, 2/3/4-byte characters and 2-byte characters whose low byte equals p, K, 8, /, w, -, space) of ~50 seed FENs (thorough: the 2-edit ball of 3 short seeds); (iii) every string of length <= 3 (thorough 4). builder: EVERY builder state with <= 2 men (thorough 3) of any kind and colour on any squares (0-3 kings of a colour, pawns on the back ranks included) x both sides to move x a rights alphabet x an en-passant-file alphabet; structured builder families: (a) both kings anywhere (adjacent included) plus one man of any of the 12 kinds anywhere x side x rights x en-passant file; (b) castling-right backing: kings on/off home x every corner empty / own rook / own bishop / enemy rook x all 16 rights sets; (c) en-passant shape: a pawn of either colour or none on file f of rank 4/5 and on each neighbour file, passed-over square empty or occupied, every en-passant file; crowded boards: for 6 square patterns x 5 kinds x 2 colours, n = 0..|pattern| men of one colour laid down in pattern order, the enemy king on every free square, that colour to move; the standard position universes (every reference-valid position must be accepted from the builder and from its standard FEN). Oracle: (1) no panic / abort; (2) accepted => one king each, side not to move not attacked, rights backed by king and rook at home, en_passant() names an enemy pawn on its double-push rank; (3) reference-valid => accepted; between (2) and (3) either answer; (4) every accepted board: full move generation, len, status, rendering, null move, hash, make_move_new and make_move of every generated move, inside catch_unwind in the debug-assertion build. distinct_nontrivial = accepted inputs (each is exercised)";
+pub const RULE: &str = "text: (i) the complete product placement(~200: valid ones, ranks not summing to 8, digit runs that wrap the file counter, 7 and 9 ranks, empty, stray letters, multi-byte characters) x side(7) x castling(14) x en passant(27) x tail(4); (ii) the complete 1-edit ball (insert / delete / substitute at every index, 48-symbol alphabet incl. tab, LF, 2/3/4-byte characters and 2-byte characters whose low byte equals p, K, 8, /, w, -, space) of ~50 seed FENs (thorough: the 2-edit ball of 3 short seeds); (iii) every string of length <= 3 (thorough 4). builder: EVERY builder state with <= 2 men (thorough 3) of any kind and colour on any squares (0-3 kings of a colour, pawns on the back ranks included) x both sides to move x a rights alphabet x an en-passant-file alphabet; structured builder families: (a) both kings anywhere (adjacent included) plus one man of any of the 12 kinds anywhere x side x rights x en-passant file; (b) castling-right backing: kings on/off home x every corner empty / own rook / own bishop / enemy rook x all 16 rights sets; (c) en-passant shape: a pawn of either colour or none on file f of rank 4/5 and on each neighbour file, passed-over square empty or occupied, every en-passant file; crowded boards: for 6 square patterns x 5 kinds x 2 colours, n = 0..|pattern| men of one colour laid down in pattern order, the enemy king on every free square, either colour to move (on boards with more than 14 men of a colour the exercise also generates the replies to every move); the standard position universes (every reference-valid position must be accepted from the builder and from its standard FEN). Oracle: (1) no panic / abort; (2) accepted => one king each, side not to move not attacked, rights backed by king and rook at home, en_passant() names an enemy pawn on its double-push rank; (3) reference-valid => accepted; between (2) and (3) either answer; (4) every accepted board: full move generation, len, status, rendering, null move, hash, make_move_new and make_move of every generated move, inside catch_unwind in the debug-assertion build. distinct_nontrivial = accepted inputs (each is exercised)";
 
 pub fn run(tier: Tier) -> i32 {
     let run = Arc::new(Run::new("C07", tier, COUNTERS));
